@@ -46,3 +46,25 @@ package analyzer
 //@   requires driverCfg(pass)
 //@   ensures result1 == nil && result0 != nil && dyntype(result0) == tagof(ignore.IgnoreResult)
 //@   ensures unbox(result0, ignore.IgnoreResult).IgnoreSet != nil && isetInv(unbox(result0, ignore.IgnoreResult).IgnoreSet)
+
+// the configuration singleton: written once (sync.Once), non-nil before and after
+// ASSUMED (this program defines the flag only in config.CreateFlagSet, as a boolean flag):
+//@ axiom analyzer_scan_tests_is_bool: forall fs *flag.FlagSet {fs.Lookup("scan-tests")} :: fs != nil && fs.Lookup("scan-tests") != nil ==> flagIsBool(fs.Lookup("scan-tests"))
+//@ func runConfig
+//@   props C18 C11 C10
+//@   requires pass.Analyzer != nil && cachedConfig != nil
+//@   ensures result1 == nil && result0 != nil && dyntype(result0) == tagof(*config.Config)
+
+// the annotation reader: its result is exactly what the doc comments of the kept files demand (relations of
+// annotations.ReadAllAnnotations) and is exported once as the package's fact, before anything else can return
+//@ func runAnnotationReader
+//@   props C06 C09 C15 C14 C10
+//@   requires driverCfg(pass) && pass.TypesInfo != nil
+//@   ensures result1 == nil && result0 != nil && dyntype(result0) == tagof(annotations.PackageAnnotations)
+//@   ensures pass.$nexports == old(pass.$nexports) + 1 && pass.$lastfact != nil && dyntype(pass.$lastfact) == tagof(*annotations.AnnotationReaderFact) && *cast(pass.$lastfact, *annotations.PackageAnnotations) == unbox(result0, annotations.PackageAnnotations)
+//@   ensures forall t string, p token.Pos :: immHasP(unbox(result0, annotations.PackageAnnotations).ImmutableAnnotations, t, p) <==> (exists f *ast.File :: contains(pass.Files, f) && !skipFile(cfgOf(pass), pass, f) && declsHit(1, f, len(f.Decls), t, p, "", pass.Pkg.Path()))
+//@   ensures forall t string, p token.Pos, x string :: ctorHasP(unbox(result0, annotations.PackageAnnotations).ConstructorAnnotations, t, p, x) <==> (exists f *ast.File :: contains(pass.Files, f) && !skipFile(cfgOf(pass), pass, f) && declsHit(3, f, len(f.Decls), t, p, x, pass.Pkg.Path()))
+//@   ensures forall t string, p token.Pos, x string :: implHasP(unbox(result0, annotations.PackageAnnotations).ImplementsAnnotations, t, p, x) <==> (exists f *ast.File :: contains(pass.Files, f) && !skipFile(cfgOf(pass), pass, f) && declsHit(5, f, len(f.Decls), t, p, x, pass.Pkg.Path()))
+//@   ensures forall k annotations.TestOnlyKind, recv string, name string, p token.Pos :: toHasP(unbox(result0, annotations.PackageAnnotations).TestonlyAnnotations, k, recv, name, p) <==> (exists f *ast.File :: contains(pass.Files, f) && !skipFile(cfgOf(pass), pass, f) && ((k == annotations.TestOnlyOnType && recv == "" && declsHit(2, f, len(f.Decls), name, p, "", pass.Pkg.Path())) || fdeclsHit(2, f, len(f.Decls), k, recv, name, p, "", pass.Pkg.Path())))
+//@   ensures forall k annotations.TestOnlyKind, recv string, name string, p token.Pos, x string :: poHasP(unbox(result0, annotations.PackageAnnotations).PackageOnlyAnnotations, k, recv, name, p, x) <==> (exists f *ast.File :: contains(pass.Files, f) && !skipFile(cfgOf(pass), pass, f) && ((k == annotations.TestOnlyOnType && recv == "" && declsHit(4, f, len(f.Decls), name, p, x, pass.Pkg.Path())) || fdeclsHit(4, f, len(f.Decls), k, recv, name, p, x, pass.Pkg.Path())))
+//@   ensures forall t string, fname string, p token.Pos :: mutHasP(unbox(result0, annotations.PackageAnnotations).MutableAnnotations, t, fname, p) <==> (exists f *ast.File :: contains(pass.Files, f) && !skipFile(cfgOf(pass), pass, f) && mdeclsHit(f, len(f.Decls), t, fname, p, pass.Pkg.Path()))
